@@ -1,6 +1,8 @@
 import Gleece.Properties.C07
 #print axioms Gleece.Types.components_sound
 #print axioms Gleece.Types.components_complete
+#print axioms Gleece.Types.components_exact
+#print axioms Gleece.Types.closure_closed
 #print axioms Gleece.Types.closed_contains_reach
 #print axioms Gleece.Types.closure_reach
 #print axioms Gleece.Types.component_of_declaration_alone
